@@ -419,3 +419,9 @@ Definition is_inverse_Qc (n : nat) (P S : list (list Qc)) : bool :=
 Definition dkl_wishart_textbook (a1 a2 dim LD1 LD2 lgc G1 G2 PS1 TR : Q) : Q :=
   - ((1 # 2) * a2 * (LD2 - LD1)) + (1 # 2) * a1 * (TR - dim) + ((lgc + G2) - (lgc + G1))
   + (1 # 2) * (a1 - a2) * PS1.
+
+(* reduced-fraction versions of guess_regularizing executed by the harness (== the ones above: Proofs5) *)
+Definition gr_mean_x (xs : list Q) : Q := Qred (qsumr xs / inject_Z (Z.of_nat (length xs))).
+Definition gr_var_x (xs : list Q) : Q :=
+  Qred (wssr (gr_mean_x xs) xs (repeat 1 (length xs)) / inject_Z (Z.of_nat (length xs))).
+Definition gr_scale_x (KF : Q) (xs : list Q) : Q := 1 / gr_var_x xs * KF.
